@@ -101,6 +101,36 @@ def run_dea(item):
     return dict(limexp=lim, ev=evs, probs=probs, seq=s[:8])
 
 
+def run_dea_pair(pair):
+    """two Dea objects fed alternately: each is its own DeaIndex machine (no state is shared between objects), so every
+    output equals, bit for bit, what the same object produces when it runs alone"""
+    vlib.use_repo()
+    from numdifftools import extrapolation as ex
+    (la, sa), (lb, sb) = pair
+
+    def solo(l, s):
+        d = ex.Dea(l)
+        return [tuple(np.asarray(v, dtype=float).tobytes() for v in d(x)) for x in s]
+    try:
+        with np.errstate(all='ignore'):
+            wa, wb = solo(la, sa), solo(lb, sb)
+            da, db = ex.Dea(la), ex.Dea(lb)
+            ga, gb = [], []
+            for j in range(max(len(sa), len(sb))):
+                if j < len(sa):
+                    ga.append(tuple(np.asarray(v, dtype=float).tobytes() for v in da(sa[j])))
+                if j < len(sb):
+                    gb.append(tuple(np.asarray(v, dtype=float).tobytes() for v in db(sb[j])))
+    except Exception as e:
+        return 'raised %s: %s' % (type(e).__name__, e)
+    for name, g, w in (('first', ga, wa), ('second', gb, wb)):
+        for j, (x, y) in enumerate(zip(g, w)):
+            if x != y:
+                return 'the %s object (limexp %d and %d interleaved) returns %r at term %d, alone it returns %r' % (
+                    name, la, lb, [float(np.frombuffer(b)[0]) for b in x], j + 1, [float(np.frombuffer(b)[0]) for b in y])
+    return None
+
+
 def validate_dea(traces):
     d = vlib.run_dir('Trace_Dea-data')
     path = os.path.join(d, 'traces.json')
@@ -187,6 +217,16 @@ def run(tier, rep):
             rep.violation('dea-value:' + p.split(':')[0], dict(limexp=o['limexp'], seq=s[:12]), 'Dea(limexp=%d): %s' % (o['limexp'], p))
         if o['ev']:
             traces.append(o)
+    # two objects interleaved (same and different table sizes)
+    rndp = random.Random(seed + 9)
+    pairs = []
+    for _ in range(60 if tier == 'quick' else 600):
+        a = rndp.choice(seqs)
+        b = rndp.choice([x for x in seqs if x[0] == a[0]] if rndp.random() < 0.7 else seqs)
+        pairs.append(((a[0], a[1][:40]), (b[0], b[1][:40])))
+    for pr, why in zip(pairs, vlib.pool_map(run_dea_pair, pairs)):
+        if why:
+            rep.violation('dea-interleaved', dict(limexp=[pr[0][0], pr[1][0]], first=pr[0][1][:10], second=pr[1][1][:10]), 'Dea: ' + why)
     tres, accepted = validate_dea(traces)
     for i, t in enumerate(traces, 1):
         if i not in accepted:
@@ -208,7 +248,7 @@ def run(tier, rep):
         for p in pl[:1]:
             rep.violation('eps:' + p.split(' ')[0], dict(case={k: rec[k] for k in ('k', 'L', 'a', 'q', 's')}), p)
     states, trans, per = vlib.merge_tlc([fixed, unfixed, tres, wres])
-    cov = dict(states=states, transitions=trans, traces_validated_against_impl=len(traces) + nrep,
+    cov = dict(interleaved_pairs=len(pairs), states=states, transitions=trans, traces_validated_against_impl=len(traces) + nrep,
                dea_runs=len(traces), dea_calls=sum(len(t['ev']) for t in traces), eps_prefixes=nrep,
                samples=[dict(limexp=traces[0]['limexp'], ev=traces[0]['ev'][:8]), wres.records[len(wres.records) // 2]],
                evaluations=len(traces) + nrep,
